@@ -5,10 +5,15 @@ from concurrent.futures import ThreadPoolExecutor
 from . import smt, solve
 
 
-def script_for(eng, ob, get_values=(), keep_quantifiers=True):
+def script_for(eng, ob, get_values=(), keep_quantifiers=True, extra_terms=True, focused=False):
     asserts = list(ob.pc) + [smt.Not(ob.goal)]
+    tag = None
+    if focused:
+        # keep only the universally quantified hypotheses that stem from the clause being proved
+        parts = ob.oid.split("#", 1)[1].split(".")
+        tag = parts[1] if parts[0].startswith("loop") else None
     txt = eng.ctx.script(asserts, get_values=get_values, inst_terms=[t.s for t in ob.skolems],
-                         keep_quantifiers=keep_quantifiers)
+                         keep_quantifiers=keep_quantifiers, extra_terms=extra_terms, only_tag=tag)
     if get_values:
         txt = "(set-option :produce-models true)\n" + txt
     return txt
@@ -23,13 +28,21 @@ def discharge(eng, obligations, timeout_s=10, jobs=None, solvers=None):
         # first attempt: universally quantified hypotheses replaced by their instances at the goal's
         # skolem constants (a weaker, quantifier-free set of hypotheses: 'unsat' is still a proof,
         # 'sat' is not a refutation)
-        qf = script_for(eng, ob, keep_quantifiers=False)
-        full = script_for(eng, ob)
-        r = solve.solve(qf, timeout_s=timeout_s, solvers=solvers, tmpdir=tmpdir)
-        if r.status != "unsat" and qf != full:
-            r2 = solve.solve(full, timeout_s=timeout_s, solvers=solvers, tmpdir=tmpdir)
-            r2.seconds += r.seconds
-            r = r2
+        stages = []
+        for kw in (dict(keep_quantifiers=False, extra_terms=False, focused=True),
+                   dict(keep_quantifiers=False, extra_terms=False), dict(keep_quantifiers=False, extra_terms=True),
+                   dict(keep_quantifiers=True, extra_terms=True)):
+            txt = script_for(eng, ob, **kw)
+            if txt not in stages:
+                stages.append(txt)
+        secs = 0.0
+        for k, txt in enumerate(stages):
+            r = solve.solve(txt, timeout_s=timeout_s if k == len(stages) - 1 else min(timeout_s, 6), solvers=solvers, tmpdir=tmpdir)
+            secs += r.seconds
+            # a model of weakened hypotheses is not a counterexample: only the last (full) stage may refute
+            if r.status == "unsat" or k == len(stages) - 1:
+                break
+        r.seconds = secs
         status = {"unsat": "proved", "sat": "refuted"}.get(r.status, "undecided")
         return dict(ob=ob, status=status, solver=r.solver, seconds=r.seconds, per_solver=r.per_solver, output=r.output)
 
